@@ -9,6 +9,7 @@ import Mathlib.Tactic.Linarith
 import Mathlib.Tactic.Ring
 import Mathlib.Tactic.FieldSimp
 import Mathlib.Tactic.SplitIfs
+import RQ.Lemmas.WorldB
 
 namespace RQ.Props.C04
 open RQ.Q
@@ -327,5 +328,21 @@ theorem signal_decides_at_once (pl : Bool) (slip : Slip) (o : Ord) (b : MBar) (c
       cases hs : slipPrice slip o.isBuy o.isLimit o.limitPrice b (signalDeal o last) with
       | none => exact Or.inr (Or.inl rfl)
       | some price => exact Or.inr (Or.inr ⟨price, rfl⟩)
+
+
+/-! ### whole runs of the composed world (`RQ/Model/World.lean`) -/
+
+/-- **nothing left dangling, for whole runs**: from a world whose books hold live orders only, after ANY sequence of day events and
+strategy calls every order in the broker's books is still live, every order that has left the books is final (filled, rejected or
+cancelled) — no order is ever lost between the two -/
+theorem world_books_live (w : World) (ins : List WIn) (h : RQ.Lemmas.WorldB.BooksOk w) :
+    (∀ o ∈ (w.run ins).1.openOrders ++ (w.run ins).1.auctionOrders, o.isFinal = false) ∧
+    (∀ o ∈ (w.run ins).1.finals, o.isFinal = true) :=
+  RQ.Lemmas.WorldB.run_booksOk w ins h
+
+/-- after the close of any day of any run nothing rests in the regular book -/
+theorem world_nothing_rests_after_close (w : World) (ins : List WIn) :
+    ((w.run ins).1.step .afterTrading).1.openOrders = [] :=
+  RQ.Lemmas.WorldB.afterTrading_book_empty _
 
 end RQ.Props.C04
